@@ -1871,13 +1871,17 @@ class NoteRestToken(ComplexToken):
         # Build agnostic pitch (if requested and applicable)
         agnostic_pitch_representation = None
         if convert_pitch_to_agnostic_fn is not None:
-            only_pitches_and_alterations = [
+            only_pitches = [
                 s for s in pitch_duration_tokens_sorted
-                if s.category in {TokenCategory.PITCH, TokenCategory.ALTERATION}
+                if s.category == TokenCategory.PITCH
             ]
-            if only_pitches_and_alterations:
+            if only_pitches:
+                # the staff position depends on the pitch letters only; the accidental is carried over unchanged
                 agnostic_pitch_representation = convert_pitch_to_agnostic_fn(
-                    "".join(s.encoding for s in only_pitches_and_alterations)
+                    "".join(s.encoding for s in only_pitches)
+                ) + "".join(
+                    s.encoding for s in pitch_duration_tokens_sorted
+                    if s.category == TokenCategory.ALTERATION
                 )
 
         if agnostic_pitch_representation is not None:
